@@ -364,6 +364,9 @@ func (q *puppetQSpec) qf(method string, in proto.Message, replies map[uint32]int
 	}
 
 	quorum := spec.Threshold > 0 && n >= spec.Threshold
+	if spec.Exactly {
+		quorum = spec.Threshold > 0 && n == spec.Threshold
+	}
 	if quorum && spec.NeedServer >= 0 {
 		if _, ok := replies[nodeID(spec.NeedServer)]; !ok {
 			quorum = false
